@@ -606,12 +606,9 @@ theorem ctor_then_getter : CtorThenGetter := by
     have : ¬ 4294967296 ≤ 1000000 * ms := Nat.not_le.mpr hlt
     simp [after, cstep, cexec, CState.val?, pget, Getter.read, CState.alloc, hok, mkTimeVal, this]
   · intro y m d hok
-    have hy : ((y : Int) % 4294967296).toNat = y := by
-      have h1 : (y : Int) ≤ 262142 := by
-        simp only [dateOk, Bool.and_eq_true, decide_eq_true_eq, maxYear] at hok
-        exact of_decide_eq_true hok.1.1.1.1.2
-      omega
-    simp [after, cstep, cexec, CState.val?, pget, Getter.read, CState.alloc, hok, mkDateVal, hy]
+    have h0 : (0 : Int) ≤ (y : Int) := Int.natCast_nonneg y
+    have hneg : ¬ ((y : Int) < 0) := by omega
+    simp [after, cstep, cexec, CState.val?, pget, Getter.read, CState.alloc, hok, mkDateVal, h0, hneg]
 
 /-! ## codec and filter entry points -/
 
